@@ -25,6 +25,10 @@ func (s *LookupJoin) Run(ctx ExecutionContext, produce ProduceFn, metaSend MetaS
 	if err := s.source.Run(ctx, func(produceCtx ProduceContext, sourceRecord Record) error {
 		ctx := ctx.WithRecord(sourceRecord)
 
+		// The joined stream may itself be a changelog (+a, -a, +b). Undoing it for a retracted source record has to go
+		// backwards (-b, +a, -a), otherwise a row would be retracted before it is present.
+		var undo []Record
+
 		if err := s.joined.Run(ctx, func(produceCtx ProduceContext, joinedRecord Record) error {
 			outputValues := make([]octosql.Value, len(sourceRecord.Values)+len(joinedRecord.Values))
 
@@ -33,6 +37,11 @@ func (s *LookupJoin) Run(ctx ExecutionContext, produce ProduceFn, metaSend MetaS
 
 			retraction := (sourceRecord.Retraction || joinedRecord.Retraction) && !(sourceRecord.Retraction && joinedRecord.Retraction)
 
+			if sourceRecord.Retraction {
+				undo = append(undo, NewRecord(outputValues, retraction, sourceRecord.EventTime))
+				return nil
+			}
+
 			if err := produce(ProduceFromExecutionContext(ctx), NewRecord(outputValues, retraction, sourceRecord.EventTime)); err != nil {
 				return fmt.Errorf("couldn't produce: %w", err)
 			}
@@ -40,6 +49,12 @@ func (s *LookupJoin) Run(ctx ExecutionContext, produce ProduceFn, metaSend MetaS
 			return nil
 		}, metaSend); err != nil {
 			return fmt.Errorf("couldn't run joined stream: %w", err)
+		}
+
+		for i := len(undo) - 1; i >= 0; i-- {
+			if err := produce(ProduceFromExecutionContext(ctx), undo[i]); err != nil {
+				return fmt.Errorf("couldn't produce: %w", err)
+			}
 		}
 
 		return nil
